@@ -1297,7 +1297,9 @@ GI, GC, GP = "input", "cached", "plain"
 GNODES = {
     "mesh": [("mesh", "_array", GI), ("mesh", "delaunay", GC), ("mesh", "voronoi", GC), ("mesh", "edge_pixel_list", GC),
              ("mesh", "voronoi_pixel_areas", GP), ("mesh", "voronoi_pixel_areas_for_split", GC), ("mesh", "split_cross", GC),
-             ("mesh", "areas_for_magnification", GP), ("mesh", "neighbors", GC), ("mesh", "interp", GP)],
+             ("mesh", "areas_for_magnification", GP), ("mesh", "neighbors", GC), ("mesh", "interp", GP),
+             ("mapper", "source_plane_data_grid", GI), ("mapper", "pix_sub_weights", GC), ("mapper", "pix_sub_weights_split_cross", GP),
+             ("mapper", "mapping_matrix", GC), ("mapper", "regularization_matrix", GP), ("valued", "magnification_via_mesh_from", GP)],
     "fit": [("ds", "data", GI), ("ds", "noise_map", GI), ("ds", "psf", GI), ("mapper", "source_plane_data_grid", GI),
             ("ds", "grids", GC), ("ds", "convolver", GC), ("mapper", "pix_sub_weights", GC), ("mapper", "unique_mappings", GC),
             ("mapper", "mapping_matrix", GC), ("inv", "mapping_matrix", GC), ("inv", "operated_mapping_matrix", GC),
@@ -1384,7 +1386,8 @@ def gvalue(parts, node, cfg):
     if owner == "hold": return getattr(o, name)
     v = getattr(o, name)
     if name == "neighbors": return [np.asarray(v), getattr(v, "sizes", None)]
-    if name == "pix_sub_weights": return [v.mappings, v.sizes, v.weights]
+    if name in ("pix_sub_weights", "pix_sub_weights_split_cross"): return [v.mappings, v.sizes, v.weights]
+    if name == "magnification_via_mesh_from": return v()
     if name == "unique_mappings": return [v.data_to_pix_unique, v.data_weights, v.pix_lengths]
     return v
 def gencode(v, name):
@@ -1440,7 +1443,7 @@ def run_gcase(inp):
 def gen_gcase(rng, inst):
     nodes = GNODES[GINST[inst]]
     if inst in (0, 1):
-        cfg = gen_mesh(rng)["cfg"]; cfg["kind"] = "voronoi" if inst == 1 else "delaunay"
+        cfg = gen_mesh(rng)["cfg"]; cfg["kind"] = "voronoi" if inst == 1 else "delaunay"; cfg["reg"] = "split"; cfg["pixel_mask"] = None
         ok = [n for n in range(len(nodes)) if not (inst == 0 and n == 7)]      # Mesh2DDelaunay has no areas_for_magnification
     elif inst == 2:
         cfg = rand_cfg(rng); cfg.update(preloads=[], funcs=[], mappers=[[3, 3, rng.choice([1.0, 2.0])]], w_tilde=False, positive=False)
